@@ -43,7 +43,7 @@ def seeds(shard=0, of=1):
             bad += 1
             continue
         try:
-            rc, line = check(meta.get("detected_by_check_of", meta["breaks_property"]))
+            rc, line = check(meta.get("detected_by_check_of", meta["breaks_property"]), meta.get("tier", "quick"))
         finally:
             git("checkout", "--", ".")
         ok = rc == 1 and line.startswith("VIOLATION")
